@@ -269,7 +269,7 @@ class Runner:
     # ----- oracles
     def verdict(self, s, state, lm, which=None):
         """I1-I5 on `state`; known findings are recorded, anything else raises Violation"""
-        if getattr(s, 'tainted', None) and state is s.state:
+        if getattr(s, 'tainted', None):
             # the session continues on a state produced by a PERTURBED revert_intro (known findings I1/I3/I4
             # revert_intro): everything later in this lineage is a consequence of that damage, e.g. recorded fact ids
             # that now denote the goal line.  Copy isolation (I6) is still judged by the callers.
